@@ -1,6 +1,7 @@
 SPECIFICATION Spec
 CONSTANTS
   MaxSites = 1
+  MaxDepth = 3
 INVARIANT TokensPreserved
 INVARIANT CanonicalFaithful
 CHECK_DEADLOCK FALSE
